@@ -13,7 +13,7 @@ class Required(Validator):
 
     @classmethod
     def from_element(cls, element):
-        required = getattr(element, "required", None) or []
+        required = list(getattr(element, "required", None) or [])
         properties = getattr(element, "properties", None)
         if properties:
             required += properties.required
